@@ -58,7 +58,9 @@ class P(Process):
     def ports_schema(self):
         items = [('z', {'_default': 0, '_emit': True, '_updater': count_acc}),
                  ('own_' + self.name, {'_default': 0, '_updater': 'set',
-                                       '_emit': True})]
+                                       '_emit': True}),
+                 # list-valued, default updater (concatenation), not emitted
+                 ('vec', {'_default': []})]
         if self.parameters.get('reverse_ports'):
             items.reverse()
         # two ports that are themselves variables, both wired to one
@@ -81,8 +83,12 @@ class P(Process):
         CTX['inv'].append(dict(name=self.name, g=e.global_time,
                                c=CTX['applies'], z=states['s']['z'],
                                nrows=len(stubs.SINK['rows'])))
+        # p0 passes on the list it was shown ("append what is there now"),
+        # the others append one element
+        vec = states['s']['vec'] if self.name == 'p0' else [1]
+        CTX['vec_returned'].append(len(vec))
         upd = [('s', {'z': CTX['deltas'][key],
-                      'own_' + self.name: states['s']['z']}),
+                      'own_' + self.name: states['s']['z'], 'vec': vec}),
                ('ta', 1), ('tb', 10)]
         if self.parameters.get('reverse_ports'):
             upd.reverse()
@@ -334,6 +340,7 @@ def run_once(ctx, cfg, order, sorder, init_keys, reverse):
     CTX['applies'] = 0
     CTX['inv'] = []
     CTX['sinv'] = []
+    CTX['vec_returned'] = []
     sink = stubs.reset_sink()
     procs = {n: P({'name': n, 'reverse_ports': reverse}) for n in order}
     topo_names = list(reversed(order)) if reverse else list(order)
@@ -350,12 +357,14 @@ def run_once(ctx, cfg, order, sorder, init_keys, reverse):
         for n in sorder:
             topology[n] = {'s': ('s',)}
     init = {'s': {k: 0 for k in init_keys}}
+    init['s']['vec'] = [1]
     e = Engine(processes=procs, topology=topology, initial_state=init,
                emitter={'type': 'vsym_rec'}, display_info=False, **kwargs)
     CTX['engine'] = e
     e.update(CTX['T'])
     return dict(rows=[dict(r) for r in sink['rows']], inv=CTX['inv'],
-                sinv=CTX['sinv'])
+                sinv=CTX['sinv'], vec_returned=list(CTX['vec_returned']),
+                vec_final=len(e.state.get_value()['s']['vec']))
 
 
 def body(ctx, cfg):
@@ -421,6 +430,13 @@ def body(ctx, cfg):
             tally.append(EQ(row.get('tally'), 11 * n_applied))
     ctx.claim('C04.committed', AND(tally), sig='two-leaf-ports-on-one-variable',
               info=lambda: dict(rows=runs[0][2]['rows']))
+    # what a process was shown is a snapshot: the list it passed on is applied
+    # as it was when returned, under every listing order
+    ctx.claim('C04.committed', all(
+        r['vec_final'] == 1 + sum(r['vec_returned']) for _, _, r in runs),
+        sig='view-object-passed-on-as-update', info=lambda: dict(
+            runs=[(o, r['vec_returned'], r['vec_final'])
+                  for o, _, r in runs]))
     ctx.claim('C04.same_instant', AND(same), sig='same_instant')
     ctx.claim('C04.committed', AND(committed), sig='committed')
     if snames:
